@@ -43,6 +43,13 @@ pipe_destroy(void *arg)
 	}
 	p->p_tran_ops.p_fini(p->p_tran_data);
 
+	if (p->p_dialer != NULL) {
+		nni_dialer_rele(p->p_dialer);
+	}
+	if (p->p_listener != NULL) {
+		nni_listener_rele(p->p_listener);
+	}
+	nni_sock_rele(p->p_sock);
 	nni_free(p, p->p_size);
 }
 
@@ -271,6 +278,18 @@ pipe_create(nni_pipe **pp, nni_sock *sock, nni_sp_tran *tran, nni_dialer *d,
 	if ((p = nni_zalloc(sz)) == NULL) {
 		return (NNG_ENOMEM);
 	}
+
+	// The pipe refers to its endpoint for as long as it exists (ids,
+	// options, URL, statistics), which can be longer than it stays on
+	// the endpoint's list of pipes; so it keeps the endpoint alive.
+	if (((d != NULL) && (nni_dialer_hold(d) != 0)) ||
+	    ((l != NULL) && (nni_listener_hold(l) != 0))) {
+		nni_free(p, sz);
+		return (NNG_ECLOSED);
+	}
+	// Likewise the socket: a closed endpoint is off the socket's lists, and
+	// an option the endpoint does not know is asked of the socket.
+	nni_sock_hold(sock);
 
 	p->p_size       = sz;
 	p->p_proto_ops  = *pops;
